@@ -45,13 +45,14 @@ def allWorld2Pix (W : Wcs α) (ra dec origin : α) : α × α :=
   let p := W.w2p ra dec
   (p.1 - (R.ofNat 1 - origin), p.2 - (R.ofNat 1 - origin))
 
-/-- `WCSHelper.pix2sky((x, y))`:  `self.wcs.all_pix2world([[y, x]], 1)[0]` -/
-def pix2sky (W : Wcs α) (x y : α) : α × α := allPix2World W y x (R.ofNat 1)
+/-- `WCSHelper.pix2sky((x, y))`:  `self.wcs.all_pix2world([[y, x]], 1)[0]` — which coordinate goes first and the
+    origin are REGENERATED from the source (`Gen.C16.pix2skyP1/P2/Origin`); this is the glue -/
+def pix2sky (W : Wcs α) (x y : α) : α × α := allPix2World W (pix2skyP1 x y) (pix2skyP2 x y) pix2skyOrigin
 
 /-- `WCSHelper.sky2pix((ra, dec))`:  `pixel = self.wcs.all_world2pix([pos], 1); [pixel[0][1], pixel[0][0]]` -/
 def sky2pix (W : Wcs α) (ra dec : α) : α × α :=
-  let p := allWorld2Pix W ra dec (R.ofNat 1)
-  (p.2, p.1)
+  let p := allWorld2Pix W ra dec sky2pixOrigin
+  (sky2pixX p.1 p.2, sky2pixY p.1 p.2)
 
 /-! ### Vectors and ellipses -/
 
@@ -90,7 +91,7 @@ def sky2pixVec (W : Wcs α) (ra dec r pa : α) : PixVec α :=
 /-- `WCSHelper.pix2sky_vec(pixel, r, theta)` -/
 def pix2skyVec (W : Wcs α) (x y r theta : α) : SkyVec α :=
   let s := pix2sky W x y
-  let e := pix2sky W (offX x r theta) (offY y r theta)
+  let e := pix2sky W (p2sVecOffX x y r theta) (p2sVecOffY x y r theta)
   ⟨p2sVecRa s.1, p2sVecDec s.2, p2sVecLen s.1 s.2 e.1 e.2, p2sVecPa s.1 s.2 e.1 e.2⟩
 
 /-- `WCSHelper.sky2pix_ellipse(pos, a, b, pa)` -/
@@ -104,8 +105,8 @@ def sky2pixEllipse (W : Wcs α) (ra dec a b pa : α) : PixEll α :=
 /-- `WCSHelper.pix2sky_ellipse(pixel, sx, sy, theta)` -/
 def pix2skyEllipse (W : Wcs α) (x y sx sy theta : α) : SkyEll α :=
   let s := pix2sky W x y
-  let e1 := pix2sky W (offX x sx theta) (offY y sx theta)
-  let e2 := pix2sky W (offX x sy (theta - R.ofNat 90)) (offY y sy (theta - R.ofNat 90))
+  let e1 := pix2sky W (p2sEllOff1X x y sx sy theta) (p2sEllOff1Y x y sx sy theta)
+  let e2 := pix2sky W (p2sEllOff2X x y sx sy theta) (p2sEllOff2Y x y sx sy theta)
   ⟨p2sEllRa s.1, p2sEllDec s.2, p2sEllMajor s.1 s.2 e1.1 e1.2,
    p2sEllMinor s.1 s.2 e1.1 e1.2 e2.1 e2.2, p2sEllPa s.1 s.2 e1.1 e1.2⟩
 
